@@ -135,6 +135,9 @@ class Prop(object):
         for root, d in self.bound(tier)['depth'].items():
             for op in H.OPS:
                 u.append(('bfs', {'root': root, 'first': op, 'depth': d}))
+        for root, hist in H.DEEP_HISTORIES:
+            for k in range(1, len(hist) + 1):
+                u.append(('bfs', {'root': root, 'hist': hist[:k]}))
         return u
 
     def run_case(self, check, case):
